@@ -72,6 +72,7 @@ func f8Input() []byte {
 type mdClass struct {
 	ok       bool   // reference says: decodes
 	known    string // known finding this input runs into first ("" = none)
+	hasTrunc bool   // carries the truncation attribute (non-client metadata)
 	strict   bool   // well-formed by the strictest reading of the format (every extra <= maxExtraLen)
 	oversize bool   // decodes, but holds an extra attribute longer than maxExtraLen (Bytes() panics: same finding)
 	attrs    int
@@ -95,6 +96,7 @@ func classifyTxMetadata(b []byte) mdClass {
 				return c
 			}
 			i += 8
+			c.hasTrunc = true
 		case 1:
 			if len(b)-i < 2 {
 				return c
@@ -383,6 +385,7 @@ func layoutHeader(l *layout, prefix string, base int) int {
 }
 
 type hdrClass struct {
+	mdHasTrunc    bool
 	ok            bool
 	oversizeExtra bool   // metadata holds an oversize extra attribute: ReadFrom works, Bytes()/Alh() panic (F4)
 	known         string // ReadFrom itself runs into this finding
@@ -424,6 +427,7 @@ func classifyHeader(b []byte) hdrClass {
 				return c
 			}
 			c.oversizeExtra = mc.oversize
+			c.mdHasTrunc = mc.hasTrunc
 			i += mdLen
 		}
 		c.nentries = int(binary.BigEndian.Uint32(b[i:]))
@@ -432,7 +436,8 @@ func classifyHeader(b []byte) hdrClass {
 		return c
 	}
 	c.pastVer = true
-	if c.nentries < 1 {
+	if c.nentries < 1 && !c.mdHasTrunc {
+		// a tx without entries is only valid with non-client metadata (the truncation marker)
 		return c
 	}
 	i += 32 // Eh is copied, short copies are silent
